@@ -156,6 +156,46 @@ def generated_case(ctx, rng, idx):
                        'times': times, 'parameters': vals,
                        'model': am.describe()}, feats)
         return
+    # ---- a copy taken after a simulation solves the same problem, also at
+    # ---- a point that shares some values with the last one simulated
+    try:
+        mc = m.copy()
+        x2 = np.array(x)
+        chg = rng.random(len(x2)) < 0.5
+        x2[chg] = rng.uniform(0.3, 2.0, int(np.sum(chg)))
+        yc = np.asarray(mc.simulate(x2, times))
+        refc = np.real(am.solve(dict(zip(names, x2)), times, outs))
+        ctx.count('copies_after_simulation')
+        if yc.shape != refc.shape or not ctx.close(
+                yc, refc, rtol=1e-6, scale=np.max(np.abs(refc)) + 1e-3):
+            ctx.violation('solution_of_the_ivp', 'copy_after_simulation',
+                          {'chi': yc, 'reference': refc, 'outputs': outs,
+                           'parameters': x2, 'previous_parameters': x,
+                           'model': am.describe()}, feats)
+            return
+        # re-selecting the copy's current outputs in another order
+        if len(outs) >= 2:
+            perm = [int(i) for i in rng.permutation(len(outs))]
+            if perm == sorted(perm):
+                perm = perm[::-1]
+            mc.set_outputs([out_pub[i] for i in perm])
+            yp = np.asarray(mc.simulate(x2, times))
+            ctx.count('output_permutations')
+            if mc.outputs() != [out_pub[i] for i in perm] or \
+                    yp.shape != refc.shape or not ctx.close(
+                        yp, refc[perm], rtol=1e-6,
+                        scale=np.max(np.abs(refc)) + 1e-3):
+                ctx.violation('published_output_order', 'permuted_outputs',
+                              {'requested': [out_pub[i] for i in perm],
+                               'published': mc.outputs(), 'chi': yp,
+                               'reference': refc[perm],
+                               'model': am.describe()}, feats)
+                return
+    except Exception as e:      # noqa
+        ctx.violation_exc('simulate_raises', e,
+                          {'model': am.describe(), 'outputs': outs,
+                           'step': 'copy / permuted outputs'}, feats)
+        return
     # ---- the same call with the numbers in another container / dtype
     form = FM.pick(rng)
     xf, tf = np.array(x), times
